@@ -95,3 +95,65 @@ Check C06_index_checked : forall (crc32 : list N -> N) (start : N) (records : li
      pad = repeat 0 (N.to_nat (padding_of count)) /\ (count + nlen pad) mod 4 = 0) /\
     length cb = 4%nat /\ le_num cb = crc32 (0 :: b0 ++ concat cs ++ pad).
 Print Assumptions C06_index_checked.
+
+From LZ Require Import Model.Crc Model.Xz Proofs.CrcDetect Proofs.CrcDetectXz.
+
+(* the executable CRC-32 of the model (table driven, reflected 0xEDB88320) changes under EVERY single-bit flip of a message of any length   [proved as crc32_detects_single_bit in Proofs/CrcDetect.v] *)
+Theorem C06_crc32_detects_single_bit :
+  forall (m : list N) (p : N), p < 8 * nlen m -> crc32_exec (flip_bit m p) <> crc32_exec m.
+Proof. exact (@crc32_detects_single_bit). Qed.
+Check C06_crc32_detects_single_bit :
+  forall (m : list N) (p : N), p < 8 * nlen m -> crc32_exec (flip_bit m p) <> crc32_exec m.
+Print Assumptions C06_crc32_detects_single_bit.
+
+(* the same for CRC-64/XZ   [proved as crc64_detects_single_bit in Proofs/CrcDetect.v] *)
+Theorem C06_crc64_detects_single_bit :
+  forall (m : list N) (p : N), p < 8 * nlen m -> crc64_exec (flip_bit m p) <> crc64_exec m.
+Proof. exact (@crc64_detects_single_bit). Qed.
+Check C06_crc64_detects_single_bit :
+  forall (m : list N) (p : N), p < 8 * nlen m -> crc64_exec (flip_bit m p) <> crc64_exec m.
+Print Assumptions C06_crc64_detects_single_bit.
+
+(* and under every non-zero error pattern confined to 32 consecutive bits   [proved as crc32_detects_burst32 in Proofs/CrcDetect.v] *)
+Theorem C06_crc32_detects_burst32 :
+  forall (m : list N) (s B : N),
+  0 < B ->
+  B < 2 ^ 32 ->
+  N.shiftl B s < 2 ^ (8 * nlen m) ->
+  crc32_exec (lxor_list m (le_bytes (length m) (N.shiftl B s))) <> crc32_exec m.
+Proof. exact (@crc32_detects_burst32). Qed.
+Check C06_crc32_detects_burst32 :
+  forall (m : list N) (s B : N),
+  0 < B ->
+  B < 2 ^ 32 ->
+  N.shiftl B s < 2 ^ (8 * nlen m) ->
+  crc32_exec (lxor_list m (le_bytes (length m) (N.shiftl B s))) <> crc32_exec m.
+Print Assumptions C06_crc32_detects_burst32.
+
+(* linearity (affine form) of CRC-32 over equal-length messages, by induction - the table step equals the bit-serial step   [proved as crc32_affine in Proofs/CrcDetect.v] *)
+Theorem C06_crc32_affine :
+  forall a b : list N,
+  length a = length b ->
+  crc32_exec (lxor_list a b) = N.lxor (N.lxor (crc32_exec a) (crc32_exec b)) (crc32_exec (repeat 0 (length a))).
+Proof. exact (@crc32_affine). Qed.
+Check C06_crc32_affine :
+  forall a b : list N,
+  length a = length b ->
+  crc32_exec (lxor_list a b) = N.lxor (N.lxor (crc32_exec a) (crc32_exec b)) (crc32_exec (repeat 0 (length a))).
+Print Assumptions C06_crc32_affine.
+
+(* consequence for files: an accepted .xz file with ONE bit flipped in the stream header (incl. its CRC), in the first block header or its CRC, or anywhere in the index / footer (incl. their CRCs) is rejected   [proved as xz_bit_flip_rejected_header_index_footer in Proofs/CrcDetectXz.v] *)
+Theorem C06_xz_bit_flip_rejected_header_index_footer :
+  xz_bit_flip_rejected_in
+    (fun (F : list N) (p : N) =>
+     p < 96 \/
+     nth 12 F 0 <> 0 /\ 8 * 13 <= p < 8 * (12 + 4 * nth 12 F 0 + 4) \/
+     8 * (nlen F - 12 - xz_declared_index_size F) <= p < 8 * nlen F).
+Proof. exact (@xz_bit_flip_rejected_header_index_footer). Qed.
+Check C06_xz_bit_flip_rejected_header_index_footer :
+  xz_bit_flip_rejected_in
+    (fun (F : list N) (p : N) =>
+     p < 96 \/
+     nth 12 F 0 <> 0 /\ 8 * 13 <= p < 8 * (12 + 4 * nth 12 F 0 + 4) \/
+     8 * (nlen F - 12 - xz_declared_index_size F) <= p < 8 * nlen F).
+Print Assumptions C06_xz_bit_flip_rejected_header_index_footer.
